@@ -54,11 +54,19 @@ func Check(v any) error {
 		sf := value.Type().Field(i)
 		apiTag := sf.Tag.Get("api")
 
-		if sf.Name == "ID" || (apiTag != "attr" && apiTag != "rel" && !strings.HasPrefix(apiTag, "rel,")) {
+		// The wrapper looks fields up by json tag among all the fields that
+		// have an api tag, whatever it is.
+		if sf.Name == "ID" || apiTag == "" {
 			continue
 		}
 
+		isField := apiTag == "attr" || apiTag == "rel" || strings.HasPrefix(apiTag, "rel,")
+
 		name := sf.Tag.Get("json")
+		if name == "" && !isField {
+			continue
+		}
+
 		if name == "" {
 			return fmt.Errorf(
 				"jsonapi: field %q of type %q has no json tag",
